@@ -358,8 +358,15 @@ Definition cmp_of (op : binop) : option cmpop :=
   | BEq => Some OEq | BNe => Some ONe | BAnd => None | BOr => None
   end.
 
-(* BinaryStrOperator.__init__ raises ParseError unless both operands have
-   evalExpressionToString (StringLiteral, FunctionCall) *)
+(* BinaryStrOperator.__init__ raises bob.errors.ParseError unless both operands
+   have evalExpressionToString (StringLiteral, FunctionCall).  That exception is
+   not a pyparsing exception: it is not caught by any alternative and aborts the
+   whole parse.  The model checks the operands after the syntactic parse
+   instead.  Both agree: a comparison whose parse action ran but whose result
+   is later discarded would have to sit inside an unclosed parenthesis (every
+   level succeeds when the level below it does, look-aheads run without parse
+   actions), and then no parse of the whole text exists either.  The harness
+   compares both on texts with ill-typed comparisons in every position. *)
 Fixpoint to_ifexpr (a : ifast) : option ifexpr :=
   match a with
   | AStr e => Some (IStr e)
